@@ -12,9 +12,17 @@ Runs the real ``dns.zone`` / ``dns.zonefile`` / ``dns.tokenizer`` code on PYTHON
   C09.spellings          every equivalent re-spelling loads to a zone equal to the canonical
                          one (inherited/explicit owner, TTL, class; TTL-class order;
                          $ORIGIN-relative/absolute; parenthesised multi-line; comments)
-  C09.generate           a $GENERATE line loads to the same zone as its expansion
+  C09.generate           a $GENERATE line loads to the same zone as its expansion placed at the
+                         same point of the file -- at the zone origin and below a $ORIGIN that
+                         names a proper subdomain of it, with relative and absolute domain
+                         names in the rdata (there also against names resolved at text level)
   C09.out_of_zone        records outside the zone origin are ignored
   C09.cname_other        after loading, no node holds a CNAME together with other data
+
+TTL 0 is covered as a value and as the default (M.TTL0_SHAPES): '$TTL 0' / default_ttl=0,
+RRsets with TTL 0 alone and mixed with non-zero TTLs, the first TTL-less record being the SOA,
+another RRset of the origin node, or a record of another owner (clauses model, spellings,
+roundtrip_styles).
 
 Equality is checked twice: with the library's ``==`` on zones and with an independent dump
 {(absolute owner, type, covered type) -> (class, TTL, set of rdata wire forms)}; the
@@ -25,6 +33,7 @@ from __future__ import annotations
 
 import io
 import itertools
+import random
 
 import dns.exception
 import dns.name
@@ -57,7 +66,23 @@ BOUNDS = (
     "C09.spellings/C09.model: 17 named re-spellings x every zone x 2 relativizations.  "
     "C09.generate: 4 nibble templates, 7 fixed templates (one mixing two modifier forms), quick 300 / thorough 6 000 seeded "
     "$GENERATE lines (ranges <= 7 steps, offsets, widths 0..5, bases d o x X n N, optional TTL "
-    "and class) against an independent expansion written from the BIND documentation.  "
+    "and class) against an independent expansion written from the BIND documentation; plus, with "
+    "domain names in the rdata: 6 types (CNAME NS PTR DNAME, and MX SRV with the quoted right-hand "
+    "side of the BIND manual) x 5 owner forms x 6 target forms (relative, two labels, absolute below "
+    "the current origin / below the zone origin only / outside the zone, '@') = 156 templates below "
+    "'$ORIGIN sub.example.' in zone example. and '$ORIGIN deep.er.sub.example.org.' in zone "
+    "sub.example.org. (quick: one of the two per template), the 36 relative-owner templates at the zone "
+    "origin, and quick 80 / thorough 1 200 seeded ones (modifier forms, TTL incl. 0, class, 5 "
+    "subdomains, 3 layouts: directly below the $ORIGIN, after an earlier $ORIGIN, after an ordinary "
+    "record), each relativized and absolute, against the expansion at the same point of the file and "
+    "against owner/target names resolved at text level.  "
+    "TTL 0: 13 zone shapes (SOA TTL 0 / 3600 x other RRsets all 0 / mixed 0 and non-zero x SOA first / "
+    "origin NS before the SOA / another owner first; one shape with SOA minimum 0) x quick 1 / thorough "
+    "2 seeded zones x 2 relativizations: model, the TTL-inheriting re-spellings (thorough: all), and "
+    "default_ttl=0 x sorted x want_origin x deduplicate_names x omit_rdclass (x relativize: thorough "
+    "both, quick alternating; quick half of them on the absolute zone) + the other default_ttl values "
+    "+ quick 2 / thorough 8 seeded settings of the remaining switches; default_ttl=0 also on every "
+    "ordinary zone (2 styles).  "
     "C09.out_of_zone: 14 out-of-zone line shapes x position x relativization on every zone.  "
     "C09.cname_other: 10 other-data types x both orders x {adjacent, separated, via $GENERATE, "
     "inherited owner, different case} x relativization, and the invariant on every zone loaded anywhere in the "
@@ -157,6 +182,8 @@ def _style_kwargs(st, z, zone_model):
         kw["default_ttl"] = sorted(cnt.items(), key=lambda kv: (-kv[1], kv[0]))[0][0]
     elif st["default_ttl"] == "unused":
         kw["default_ttl"] = 12345
+    elif st["default_ttl"] == "zero":
+        kw["default_ttl"] = 0  # the boundary: '$TTL 0', and RRsets with TTL 0 are written without a TTL
     if st["just"] == "left":
         kw.update(name_just=-24, ttl_just=-8, rdclass_just=-4, rdtype_just=-10)
     elif st["just"] == "right":
@@ -335,11 +362,56 @@ def eval_model(zone_model, relativize):
 _BASE = "$TTL 300\n@ SOA ns1 hostmaster 1 7200 3600 1209600 300\n@ NS ns1\nns1 A 10.0.0.1\n"
 
 
-def eval_generate(g, relativize, origin="example."):
+_NAME_ATTR = {"CNAME": "target", "NS": "target", "PTR": "target", "DNAME": "target", "MX": "exchange", "SRV": "target"}
+_WHERE = "below a $ORIGIN that names a proper subdomain of the zone origin"
+
+
+def eval_generate(g, relativize, origin="example.", sub=None, layout=0):
+    """$GENERATE against its expansion at the same point of the file.  With *sub* the line
+    stands below '$ORIGIN <sub>.<origin>' (layout 1: after an earlier $ORIGIN to another
+    subdomain; layout 2: an ordinary record between the $ORIGIN and the $GENERATE) and *g*
+    is a name template of M.name_generate whose {zo}/{co} placeholders are filled here; the
+    result is then also compared with names resolved independently (text level)."""
+    res = _eval_generate1(g, relativize, origin, sub, layout)
+    if sub is not None and res[0] not in (None, "skip"):
+        # the same template without the $ORIGIN move: when it fails there as well the reason
+        # is not the moved origin, and the finding keeps the ordinary signature
+        res0 = _eval_generate1(g, relativize, origin, None, 0)
+        if res0[0] not in (None, "skip"):
+            return res0
+    return res
+
+
+def _eval_generate1(g, relativize, origin, sub, layout):
+    moved = sub is not None
+    co = (sub + "." + origin) if moved else origin
+    named = "lhs_form" in g
+    if named:
+        g = M.bind_generate(g, origin, co)
     line = M.generate_line(g)
     exp = M.generate_expansion(g)
-    a = _BASE + line + "\nafter A 10.0.0.2\n"
-    b = _BASE + "\n".join(exp) + "\nafter A 10.0.0.2\n"
+    head, tail = _BASE, "\nafter A 10.0.0.2\n"
+    if moved:
+        if layout == 1:
+            head += f"$ORIGIN x.{origin}\nfirst A 10.0.0.5\n"
+        head += f"$ORIGIN {co}\n"
+        if layout == 2:
+            head += "pre A 10.0.0.4\n"
+        tail += f"$ORIGIN {origin}\nback A 10.0.0.3\n"
+    a = head + line + tail
+    b = head + "\n".join(exp) + tail
+
+    def sig(cls, **kw):
+        # below a moved origin the finding is identified by what differs (owner names / rdata /
+        # TTL), not by the modifier shape: the same template is fine at the zone origin
+        if moved:
+            return dict({"class": cls, "where": _WHERE}, **kw)
+        kw.pop("part", None)
+        return dict({"class": cls, "shape": _gshape(g)}, **kw)
+
+    def part(d):
+        return "owner names" if d.startswith("rrsets") else d.split(" ", 1)[0] if d.split(" ", 1)[0] in ("TTL", "class", "rdata") else "content"
+
     try:
         zb = _load(b, origin, relativize)
     except Exception as e:
@@ -348,16 +420,58 @@ def eval_generate(g, relativize, origin="example."):
         za = _load(a, origin, relativize)
     except Exception as e:
         return (f"'{line}' rejected although its expansion loads: {exc_name(e)}: {short(e, 80)}",
-                {"class": "generate rejected", "exc": exc_name(e), "shape": _gshape(g)}), None
+                sig("generate rejected", exc=exc_name(e))), None
     d = diff_dumps(dump(zb), dump(za))
     if d is not None:
-        return (f"'{line}' differs from its expansion: {d}", {"class": "generate differs", "shape": _gshape(g)}), None
+        return (f"'{line}' differs from its expansion" + (f" (current origin {co}, zone {origin})" if moved else "") + f": {d}",
+                sig("generate differs", part=part(d))), None
+    if named:
+        d = _generate_vs_model(g, za, origin, co)
+        if d is not None:
+            return (f"'{line}' (current origin {co}, zone {origin}) and its expansion agree but: {d}",
+                    sig("generate and expansion differ from independently resolved names")), None
     return None, za
+
+
+def _generate_vs_model(g, z, origin, co):
+    """The generated records as read from the loaded zone against names resolved at text
+    level (RFC 1035 5.1: relative to the *current* origin); no rdata text parser involved."""
+    zo = dns.name.from_text(origin)
+    ttl = g.get("ttl", 300)
+    attr = _NAME_ATTR[g["type"]]
+    rdtype = dns.rdatatype.from_text(g["type"])
+    for owner_t, lead, target_t in M.generate_expected(g, co):
+        owner = dns.name.from_text(owner_t)
+        if not owner.is_subdomain(zo):
+            continue
+        node = z.nodes.get(owner.relativize(zo) if z.relativize else owner)
+        rds = node.get_rdataset(dns.rdataclass.IN, rdtype) if node is not None else None
+        if rds is None:
+            return f"no {g['type']} RRset at {owner_t}"
+        if rds.ttl != ttl:
+            return f"TTL {rds.ttl} at {owner_t}, expected {ttl}"
+        want = dns.name.from_text(target_t)
+        got = []
+        for rd in rds:
+            n = getattr(rd, attr)
+            got.append(n if n.is_absolute() else n.derelativize(zo))
+            if got[-1] == want:
+                if g["type"] == "MX" and [str(rd.preference)] != lead:
+                    return f"MX preference {rd.preference} at {owner_t}"
+                if g["type"] == "SRV" and [str(rd.priority), str(rd.weight), str(rd.port)] != lead:
+                    return f"SRV fields differ at {owner_t}"
+                break
+        else:
+            return f"{g['type']} at {owner_t} names {[str(x) for x in got][:3]}, expected {target_t}"
+    return None
 
 
 def _gshape(g):
     """Stable description of the modifier shapes used (not the numbers)."""
     import re
+
+    if g.get("quoted"):
+        return "quoted right-hand side of several fields"
 
     def sh(t):
         mods = re.findall(r"\$\{[^}]*\}|\$", t)
@@ -456,6 +570,125 @@ def _emit(R, clause, finding, replay):
     if finding is None or finding == "skip":
         return
     R.violation(clause, finding[0], sig=finding[1], replay=replay)
+
+
+_TTL_SPELLINGS = ("dollar_ttl", "dollar_ttl_units", "class_then_ttl_dollar", "everything", "minimal",
+                  "soa_minimum_default", "soa_minimum_default_min")
+_STYLE_DEFAULT = {"sorted": True, "want_origin": False, "default_ttl": None, "dedup": False, "just": "none",
+                  "chunk": "default", "generic": False, "comments": False, "omit_class": False, "relativize": True}
+
+
+def ttl0_styles(rng, n_seeded, full):
+    """default_ttl=0 x {sorted, want_origin, dedup, omit_class} x relativize (quick: one value
+    per combination); the other default_ttl values x {sorted, dedup} (quick: 1 of 4); seeded
+    settings of the whitespace/comment switches."""
+    out = []
+    for i, (so, wo, dd, oc) in enumerate(itertools.product([True, False], repeat=4)):
+        rls = [True, False] if full else [i % 3 != 1]
+        for rl in rls:
+            out.append(dict(_STYLE_DEFAULT, default_ttl="zero", sorted=so, want_origin=wo, dedup=dd, omit_class=oc, relativize=rl))
+    for dt in (None, "common", "unused"):
+        for so, dd in itertools.product([True, False], repeat=2):
+            if full or (so == dd and so == (dt != "common")):
+                out.append(dict(_STYLE_DEFAULT, default_ttl=dt, sorted=so, dedup=dd))
+    for _ in range(n_seeded):
+        st = random_style(rng)
+        st.update(default_ttl="zero", generic=False)
+        out.append(st)
+    return out
+
+
+def _run_generate_names(R, C, rng2):
+    """C09.generate: domain names in the right-hand side (CNAME NS PTR DNAME MX SRV), relative
+    and absolute, at the zone origin and below a $ORIGIN naming a proper subdomain of it."""
+    fixed = M.fixed_name_generates()
+    # quick: each fixed template below one of the two (zone origin, subdomain) pairs, in turn
+    cases = [(g, zo, sub, 0) for gi, g in enumerate(fixed) for oi, (zo, sub) in enumerate(M.SUB_ORIGINS)
+             if not R.quick or (gi + gi // 6) % 2 == oi]
+    cases += [(g, "example.", None, 0) for g in fixed if g["lhs_form"] == "rel"]
+    for _ in range(80 if R.quick else 1200):
+        g = M.make_name_generate(rng2)
+        cases.append((g, rng2.choice(M.ORIGINS), rng2.choice(["sub", "deep.er", "s.u.b", "T1", "x"]), rng2.choice([0, 1, 2])))
+    for ci, (g, zo, sub, layout) in enumerate(cases):
+        if R.deadline():
+            R.note(f"generate below $ORIGIN: stopped at {ci}/{len(cases)} (deadline)")
+            break
+        for rel in (True, False):
+            res = R.guard("C09.generate", eval_generate, g, rel, zo, sub, layout)
+            if res is None:
+                continue
+            key = ("gn", M.generate_line(g), zo, sub, layout, rel)
+            if res[0] == "skip":
+                R.case("C09.generate", key=key, nontrivial=False)
+                continue
+            R.case("C09.generate", key=key)
+            if ci == 7 and rel:
+                gb = M.bind_generate(g, zo, sub + "." + zo)
+                R.sample("C09.generate", {"zone": zo, "below": "$ORIGIN " + sub + "." + zo, "line": M.generate_line(gb),
+                                          "expansion": M.generate_expansion(gb)[:2]})
+            _emit(R, "C09.generate", res[0], {"kind": "generate", "g": g, "relativize": rel, "origin": zo, "sub": sub, "layout": layout})
+            if res[1] is not None:
+                C.check_cname(res[1], {"kind": "generate", "g": g, "relativize": rel, "origin": zo, "sub": sub, "layout": layout}, key)
+
+
+def _run_ttl0(R, C, rng2, zones, unloadable):
+    """TTL 0 as a value and as the default: zones of every M.TTL0_SHAPES shape through the
+    model, the TTL-inheriting re-spellings ('$TTL 0', SOA minimum 0) and the default_ttl=0
+    styles; and the default_ttl=0 styles on the ordinary zones.  All comparisons use the
+    TTL-sensitive dump."""
+    tz = []
+    for rep in range(1 if R.quick else 2):
+        for sh in M.TTL0_SHAPES:
+            tz.append((sh, M.make_ttl0_zone(rng2, sh, 3 if R.quick else 4 if rep == 0 else rng2.choice([4, 6, 10]))))
+    for zi, (sh, zm) in enumerate(tz):
+        if R.deadline():
+            R.note(f"TTL 0: stopped at zone {zi}/{len(tz)} (deadline)")
+            return
+        sts = ttl0_styles(rng2, 2 if R.quick else 8, not R.quick)
+        for rel in (True, False):
+            rp = {"kind": "model", "zone": zm, "relativize": rel}
+            f, z = R.guard("C09.model", eval_model, zm, rel) or (None, None)
+            R.case("C09.model", key=("m0", zi, rel))
+            _emit(R, "C09.model", f, rp)
+            if z is None:
+                continue
+            C.check_cname(z, rp, ("m0", zi, rel))
+            for name, sp in M.spellings(sh["minimum"] == 0).items():
+                if R.quick and name not in _TTL_SPELLINGS:
+                    continue
+                variants = ["given"] + (["file"] if (sp.get("origin_directive") or sp.get("names") == "relative") else [])
+                for lo in variants:
+                    rp = {"kind": "spelling", "zone": zm, "relativize": rel, "name": name, "sp": sp, "load_origin": lo}
+                    res = R.guard("C09.spellings", eval_spelling, zm, rel, name, sp, lo)
+                    R.case("C09.spellings", key=("s0", zi, rel, name, lo))
+                    if res is not None:
+                        _emit(R, "C09.spellings", res[0], rp)
+            for si, st in enumerate(sts):
+                if R.quick and not rel and si < 16 and si % 2 == (zi % 2):
+                    continue  # quick: half of the default_ttl=0 product on the absolute zone
+                res = R.guard("C09.roundtrip_styles", eval_style, zm, rel, st)
+                R.case("C09.roundtrip_styles", key=("st0", zi, rel, tuple(st.values())))
+                if res is None:
+                    continue
+                if zi == 3 and rel and si == 1:
+                    R.sample("C09.roundtrip_styles", {"ttl0_shape": sh, "style": st,
+                                                      "text_head": z.to_styled_text(dns.zone.ZoneStyle(**_style_kwargs(st, z, zm))).split("\n")[:4]})
+                _emit(R, "C09.roundtrip_styles", res[0], {"kind": "style", "zone": zm, "relativize": rel, "style": st})
+    for zi, zm in enumerate(zones):
+        if R.deadline():
+            return
+        has0 = any(r["ttl"] == 0 for r in zm["records"])
+        for rel in (True, False):
+            if (zi, rel) in unloadable:
+                continue
+            for so, dd in itertools.product([True, False], repeat=2):
+                if so != dd:
+                    continue
+                st = dict(_STYLE_DEFAULT, default_ttl="zero", sorted=so, dedup=dd, want_origin=so, omit_class=dd, relativize=rel)
+                res = R.guard("C09.roundtrip_styles", eval_style, zm, rel, st)
+                R.case("C09.roundtrip_styles", key=("stz", zi, rel, so, dd), nontrivial=has0)
+                if res is not None:
+                    _emit(R, "C09.roundtrip_styles", res[0], {"kind": "style", "zone": zm, "relativize": rel, "style": st})
 
 
 def run(R):
@@ -573,6 +806,13 @@ def run(R):
             _emit(R, "C09.generate", res[0], {"kind": "generate", "g": g, "relativize": rel})
 
     R.note(f"+cname/generate: {R.elapsed():.1f} s")
+    # The two sections below draw from a generator derived from the seed (not from R.rng), so
+    # that the case stream of the sections above and of the style product below is unchanged.
+    rng2 = random.Random(R.seed * 7919 + 9001)
+    _run_generate_names(R, C, rng2)
+    R.note(f"+generate below $ORIGIN: {R.elapsed():.1f} s")
+    _run_ttl0(R, C, rng2, zones, unloadable)
+    R.note(f"+TTL 0: {R.elapsed():.1f} s")
     # ---- styles: exhaustive product on the first zones, seeded subsets on the rest
     budget_frac = 0.85
     for zi, zm in enumerate(zones):
@@ -620,7 +860,7 @@ def replay(data):
     elif k == "out":
         f, _ = eval_out_of_zone(data["zone"], data["relativize"], data["line"], data["pos"])
     elif k == "generate":
-        r = eval_generate(data["g"], data["relativize"])
+        r = eval_generate(data["g"], data["relativize"], data.get("origin", "example."), data.get("sub"), data.get("layout", 0))
         f = None if r[0] in (None, "skip") else r[0]
     elif k == "cname":
         r = eval_cname(data["other"], data["order"], data["shape"], data["relativize"])
